@@ -684,6 +684,19 @@ def border_scripts(rng, tier):
         out.append(dict(tree=["script", ["factory", "-"], ["props"], ["globals", nm],
                               ["on", "hG", ["v"], ["set", ["mov", nm], ["i", num()]], ["set", ["g", nm], ["mov", nm]], ["set", ["l", "x"], ["g", nm]]],
                               ["on", "hL", [nm], ["set", ["mov", nm], ["p", nm]], ["set", ["l", "x"], ["mov", nm]]]], pre=[], kind="border-the-declared-name"))
+    # a name at entry 0 / 1 / last of the name table in every role: a handler-level global referenced ONLY by name (46 n: chunk put
+    # target, method-call receiver), a script-level global, a property, a parameter, a local, a symbol, a called handler
+    # (seeded change C02-m16: `0 < n` instead of `0 <= n` in one of the bounds checks of the handler's global-names table)
+    for pos in ("first", "second", "absent"):
+        for nm in ("gText", "zz9"):
+            pre0 = {"first": [nm, "pad1"], "second": ["pad0", nm], "absent": []}[pos]
+            hs = [["on", "hByName", ["v"], ["put", "into", ["s", S("a")], ["ch", "char", ["i", 1], ["i", 0], ["g", nm]]], ["mcall", ["g", nm], "mReset"]],
+                  ["on", "hRead", ["v"], ["set", ["l", "x"], ["g", nm]], ["put", "after", ["s", S("b")], ["ch", "word", ["i", 2], ["i", 0], ["g", nm]]]],
+                  ["on", "hSym", [nm], ["set", ["l", "x"], ["y", nm]], ["set", ["l", "y"], ["p", nm]]],
+                  ["on", nm, ["v"], ["set", ["l", "x"], ["i", num()]], ["call", nm, ["l", "x"]]]]
+            out.append(dict(tree=["script", ["factory", "-"], ["props"], ["globals"]] + hs, pre=pre0, kind="border-name-table-positions"))
+            out.append(dict(tree=["script", ["factory", "-"], ["props", nm], ["globals"]] + [["on", "hP", ["v"], ["set", ["r", nm], ["i", num()]], ["set", ["l", "x"], ["r", nm]]]], pre=pre0, kind="border-name-table-positions"))
+            out.append(dict(tree=["script", ["factory", "-"], ["props"], ["globals", nm]] + [["on", "hG", ["v"], ["set", ["g", nm], ["i", num()]], ["del", ["ch", "char", ["i", 1], ["i", 0], ["g", nm]]]]], pre=pre0, kind="border-name-table-positions"))
     # list functions: first argument a symbol (F140: printed as a global) or anything else (must be exact)
     firsts = [["y", "foo"], ["y", "name"], ["l", "lst"], ["g", "gList"], ["p", "v"], ["li", ["i", 1], ["i", 2]], ["pl", ["y", "a"], ["i", 1]]]
     seconds = [["y", "name"], ["i", 3], ["s", S("k")], ["l", "x"]]
